@@ -230,6 +230,9 @@ func checkC10(c *Ctx) {
 		}
 	}
 
+	// the lifetime announced (the package variables above) is the lifetime enforced: the expiry fields have no other source
+	checkTimeoutWriters(c, "C10.2", "lib.RegisteredDecoys")
+
 	// ---- C10.3 protocol set
 	r.Rule("C10.3", "transport protocols are TCP or UDP constants; PhantomProto only from GetProto", 5)
 	tcp := constIntOf(c.P, repoMod+"/proto", "IPProto_Tcp")
